@@ -158,19 +158,19 @@ class Run:
         for s in prim + spans:
             fn = self.fn_at(s['line_start'])
             if fn: break
-        clause = None; cprops = None
+        clause = None; cprops = None; cexplicit = False
         cand = prim + [s for s in spans if not s.get('is_primary') and 'failed' in (s.get('label') or '')]
         for s in cand:
             for ln in range(s['line_start'], s['line_end'] + 1):
                 e = self.lm[ln] if ln < len(self.lm) else None
                 if e and 'clause' in e and e['clause'] != 'prelude':
-                    clause = e['clause']; cprops = e['props']
+                    clause = e['clause']; cprops = e['props']; cexplicit = bool(e.get('explicit'))
                     if not e.get('explicit'):
                         # a clause written over several lines carries its `/*@p ..*/` tag on a later line of the same span
                         ex = [self.lm[k] for k in range(ln, min(s['line_end'] + 1, len(self.lm)))
                               if self.lm[k] and self.lm[k].get('clause') == clause and self.lm[k].get('explicit')]
                         if ex:
-                            cprops = sorted(set(p for x in ex for p in x['props']))
+                            cprops = sorted(set(p for x in ex for p in x['props'])); cexplicit = True
                     break
             if clause: break
         where = None
@@ -186,8 +186,13 @@ class Run:
         if fn:
             fi = self.finfo.get((fn['file'], fn['qual'])) or self.finfo.get((fn['file'], fn['tqual']))
         fname = f"{fn['file']}::{fn['qual']}" if fn else '<item>'
-        if cprops is not None and cprops:
+        if cprops is not None and cprops and (cexplicit or not fi):
             props = cprops
+        elif clause is not None and fi:
+            # an untagged clause (auxiliary invariant, frame condition, proof step) supports every tagged clause of its
+            # function: once it fails it is assumed, and the tagged clauses after it may then pass for the wrong reason.
+            # It is therefore reported for all properties the function serves.
+            props = sorted(set(cprops or []) | set(fi['props'] or []))
         elif fi and clause is None:
             # implicit safety obligation (overflow, index, unwrap, debug_assert, termination)
             props = fi.get('implicit') or (['C03'] if 'C03' in (fi['props'] or []) else (fi['props'] or []))
